@@ -13,7 +13,7 @@ use proptest::prelude::*;
 use serde::{Deserialize, Serialize};
 use std::rc::Rc;
 
-pub const RULE: &str = "(1) every built-in (all names of get_built_in_function_idents() except print / time_now) applied to every argument tuple of a boundary pool (NaN, +-inf, +-0, 2^53, +-1e30, 1e15, fractions, negatives; empty / ASCII / non-ASCII / numeric-looking / unit strings; empty, NaN-containing, nested, string and 30-element mixed lists; records; well- and ill-typed lambdas of arity 0/1/2/rest; built-ins as values): exhaustive for 0, 1 and 2 arguments, a 14-value sub-pool for 3 arguments, random tuples for 3-5 arguments; (2) grammar-generated typed programs with ill-typed noise and JSON inputs incl. __blots_function objects whose source is generated, mutated, blank or garbage; (3) token- and byte-level mutants of the repository's examples, benches and README code blocks; (4) random UTF-8 weighted to the grammar's alphabet, up to 4 KiB, bracket depth <= 64. Every stage runs on each: get_pairs, AST conversion with and without comments, evaluation of every statement, validate / serialise / stringify of every result and binding, Display of every error plus span-inside-own-source, format_expr at four widths, the WASM formatting driver, expr_to_source, and for 2% the real CLI (file, -i). Violation = panic, abort, signal, exit 101, or an error span outside its text. Non-trivial = the case reached evaluation or is an enumerated built-in call; distinct by input text.";
+pub const RULE: &str = "(1) every built-in (all names of get_built_in_function_idents() except print / time_now) applied to every argument tuple of a boundary pool (NaN, +-inf, +-0, 2^53, +-1e30, 1e15, fractions, negatives; empty / ASCII / non-ASCII / numeric-looking / unit strings; empty, NaN-containing, nested, string and 30-element mixed lists; records; well- and ill-typed lambdas of arity 0/1/2/rest; built-ins as values): exhaustive for 0, 1 and 2 arguments, a 14-value sub-pool for 3 arguments, random tuples for 3-5 arguments; (2) grammar-generated typed programs with ill-typed noise and JSON inputs incl. __blots_function objects whose source is generated, mutated, blank or garbage; (2b) sessions of separately parsed and evaluated texts sharing heap and bindings (REPL / wasm style) in which long, late-failing functions (defined in one text or arriving as JSON inputs, with non-ASCII text before the failing position) are called from short later texts; (3) token- and byte-level mutants of the repository's examples, benches and README code blocks; (4) random UTF-8 weighted to the grammar's alphabet, up to 4 KiB, bracket depth <= 64. Every stage runs on each: get_pairs, AST conversion with and without comments, evaluation of every statement, validate / serialise / stringify of every result and binding, Display of every error plus span-inside-own-source, format_expr at four widths, the WASM formatting driver, expr_to_source, and for 2% the real CLI (file, -i). Violation = panic, abort, signal, exit 101, or an error span outside its text. Non-trivial = the case reached evaluation or is an enumerated built-in call; distinct by input text.";
 pub const ASSUMPTIONS: &[&str] = &[
     "resource exhaustion is not a crash: range spans in (2*10^6, 2^32], error-swallowing recursive sort_by callbacks and unbounded recursion through slow paths are excluded by construction or counted as inconclusive (allocation-failure marker, per-case watchdog)",
     "the WASM evaluate glue cannot run natively (JsValue); everything it calls in blots-core is covered",
@@ -25,13 +25,16 @@ pub enum Case {
     /// built-in name applied to pool entries (source text of each argument)
     Builtin { name: String, args: Vec<String> },
     Program { text: String, inputs: String, cli: bool },
+    /// texts evaluated one after the other in one session (REPL / wasm style): functions outlive
+    /// the text they were written in and fail while being called from another one
+    Session { chunks: Vec<String>, inputs: String },
 }
 
 pub struct Pipeline;
 
 pub const POOL: &[&str] = &[
     "0/0", "inf", "-inf", "0", "-0", "9007199254740992", "1e30", "-1e30", "1e15", "0.5", "-1.5", "7", "1", "2", "100", "-1",
-    "\"\"", "\"abc\"", "\"é\"", "\"😀x\"", "\"12.5\"", "\"1e999\"", "\"meters\"", "\"c\"", "\"{} {}\"", "\",\"",
+    "\"\"", "\"abc\"", "\"é\"", "\"😀x\"", "\"12.5\"", "\"1e999\"", "\"meters\"", "\"c\"", "\"{} {}\"", "\",\"", "\"{\"", "\"{0} {1} {}\"", "\"{{}} }\"", "\"{:>5} {x}\"",
     "true", "false", "null",
     "[]", "[1, 2, 3]", "[3, 0/0, 1]", "[[1, 2], [3]]", "[\"b\", \"a\", \"é\"]", "[1e308, 1e308, -1e308]",
     "range(30) via (i => if i % 3 == 0 then i else if i % 3 == 1 then to_string(i) else [i])",
@@ -183,23 +186,7 @@ fn resource_shape(text: &str) -> bool {
     text.contains("sort_by") && (text.matches("=>").count() > 6)
 }
 
-pub fn run_pipeline(text: &str, inputs_json: &str, ctx: &mut Ctx) -> Result<bool, crate::engine::Failure> {
-    // stage 1: parser
-    let pairs = get_pairs(text);
-    if let Err(e) = &pairs {
-        let _ = format!("{}", e);
-        let ok = match &e.location {
-            pest::error::InputLocation::Pos(p) => *p <= text.len(),
-            pest::error::InputLocation::Span((a, b)) => a <= b && *b <= text.len(),
-        };
-        if !ok {
-            return Err(crate::engine::Failure::new("parse-error-location-outside-text", format!("{:?} for a text of {} bytes", e.location, text.len())));
-        }
-    }
-    // tokens (syntax highlighting entry point)
-    let _ = blots_core::parser::get_tokens(text);
-    // inputs
-    let sess = Sess::new();
+fn bind_inputs(sess: &Sess, inputs_json: &str) {
     let mut inputs_ok = false;
     if let Ok(v) = serde_json::from_str::<serde_json::Value>(inputs_json) {
         let mut map = indexmap::IndexMap::new();
@@ -226,6 +213,57 @@ pub fn run_pipeline(text: &str, inputs_json: &str, ctx: &mut Ctx) -> Result<bool
     if !inputs_ok {
         sess.set_inputs(&[]);
     }
+}
+
+/// Each chunk is parsed and evaluated on its own (its own text is the source of its errors),
+/// all in one session: heap and bindings are shared, as in the REPL and the wasm driver.
+pub fn run_session(chunks: &[String], inputs_json: &str) -> Result<bool, crate::engine::Failure> {
+    let sess = Sess::new();
+    bind_inputs(&sess, inputs_json);
+    let mut reached = false;
+    for chunk in chunks {
+        if get_pairs(chunk).is_err() {
+            continue;
+        }
+        let Ok(stmts) = parse_program(chunk, false) else { continue };
+        let rc: Rc<str> = chunk.as_str().into();
+        for st in &stmts {
+            let e = match &st.stmt {
+                Stmt::Expr(e) | Stmt::Output(e) => e,
+                Stmt::Comment(_) => continue,
+            };
+            reached = true;
+            match sess.eval_ast(e, &rc) {
+                Ok(v) => exercise_value(&sess, &v)?,
+                Err(err) => exercise_error(&err, &format!("chunk {:?} of a session", chunk))?,
+            }
+        }
+    }
+    let bindings: Vec<(String, Value)> = sess.env.iter().collect();
+    for (_, v) in &bindings {
+        exercise_value(&sess, v)?;
+    }
+    Ok(reached)
+}
+
+pub fn run_pipeline(text: &str, inputs_json: &str, ctx: &mut Ctx) -> Result<bool, crate::engine::Failure> {
+    // stage 1: parser
+    let pairs = get_pairs(text);
+    if let Err(e) = &pairs {
+        let _ = format!("{}", e);
+        let ok = match &e.location {
+            pest::error::InputLocation::Pos(p) => *p <= text.len(),
+            pest::error::InputLocation::Span((a, b)) => a <= b && *b <= text.len(),
+        };
+        if !ok {
+            return Err(crate::engine::Failure::new("parse-error-location-outside-text", format!("{:?} for a text of {} bytes", e.location, text.len())));
+        }
+    }
+    // tokens (syntax highlighting entry point)
+    let _ = blots_core::parser::get_tokens(text);
+    // inputs
+    let sess = Sess::new();
+    bind_inputs(&sess, inputs_json);
     if pairs.is_err() {
         return Ok(false);
     }
@@ -313,6 +351,19 @@ impl Check for Pipeline {
                     }
                 })
             }
+            Case::Session { chunks, inputs } => {
+                let all = chunks.join("\n");
+                if bracket_depth(&all) > 64 || resource_shape(&all) {
+                    ctx.discard();
+                    return Ok(());
+                }
+                let reached = run_session(chunks, inputs)?;
+                ctx.label(if reached { "session:reached-evaluation" } else { "session:nothing-evaluated" });
+                if reached {
+                    ctx.nontrivial(hash_str(&format!("{:?}{}", chunks, inputs)));
+                }
+                Ok(())
+            }
             Case::Program { text, inputs, cli } => {
                 if bracket_depth(text) > 64 {
                     ctx.discard();
@@ -387,6 +438,65 @@ const NOISE: &[&str] = &[
     "median([0/0, 1])", "percentile([], 50)", "chunk([1], 0.5)", "slice(\"héllo\", 1, 2)", "range(-1e30, 1e30)", "sort(range(25) via (i => if i % 2 == 0 then i else \"s\"))",
     "(10 ^ 12)!", "18446744073709551616!", "round(1.5, 1e30)", "format(\"{} {} {}\", 1)", "split(\"\", \"\")", "to_number(\"1e999\")", "convert(1, \"c\", \"C\")", "head(\"\")", "tail(\"é\")",
 ];
+
+
+/// Functions whose failure lies far into a long text (with non-ASCII text before it), for
+/// sessions in which the caller's text is short.
+const LONG_FAILING_FNS: &[&str] = &[
+    "x => [x, x, x, x, x, x, x, x, x, x] via (y => y + 1) into (l => l[0] + undefined_name_at_the_end)",
+    "(a, b?) => do {\n  // ééééééééééééééééééééééééééééééééééééééé\n  t = a + 1\n  return t.nope.nope\n}",
+    "x => \"ééééééééééééééééééééééééééééééééééééééééé\" + x + nope_at_the_end",
+    "x =>                                                                          [1, 2][5 + x]",
+    "x => if x > 100 then 0 else ([1, 2, 3] via (v => v * 2) where (v => v > 2) into (l => l[0])) + x.field",
+    "(...r) => \"日本語日本語日本語日本語日本語日本語日本語日本語\" + (r via (v => v via v))",
+    "x => do {\n  a = x + 1\n  b = a * 2\n  c = [a, b]\n  return c[7]\n}",
+    "x => convert(x, \"ééééééééééééééééééééééééééééééééééé\", \"meters\")",
+];
+
+const SHORT_CALLS: &[&str] = &["F(1)", "[1] via F", "map([1], F)", "1 into F", "[1, 2] where F", "F(1) + 1", "F()", "[[1]] via (q => q via F)", "r = F(2)", "sort_by([2, 1], F)", "reduce([1, 2], F, 0)", "F"];
+
+fn session_case(tape: &[u16]) -> Case {
+    let mut t = Tape::new(tape);
+    let mut chunks: Vec<String> = Vec::new();
+    let mut fns: Vec<String> = Vec::new();
+    // functions arriving as JSON inputs (their text is the emitted source, not the program)
+    let mut inputs = String::from("{\"n\": 2");
+    for i in 0..t.pick(3) {
+        let src = if t.chance(2, 3) { LONG_FAILING_FNS[t.pick(LONG_FAILING_FNS.len())] } else { FN_SOURCES[t.pick(FN_SOURCES.len())] };
+        inputs.push_str(&format!(", \"f{}\": {{\"__blots_function\": {}}}", i, crate::model::json::write_string(src, false)));
+        fns.push(format!("#f{}", i));
+        fns.push(format!("inputs.f{}", i));
+    }
+    inputs.push('}');
+    if t.chance(1, 2) {
+        chunks.push(typed::PRELUDE.to_string());
+    }
+    let n = 2 + t.pick(7);
+    for i in 0..n {
+        match t.pick(6) {
+            0 | 1 => {
+                let name = format!("g{}", i);
+                chunks.push(format!("{} = {}", name, LONG_FAILING_FNS[t.pick(LONG_FAILING_FNS.len())]));
+                fns.push(name);
+            }
+            2 => {
+                // a generated statement as its own chunk
+                let (prog, _) = typed::program(&mut t, 1, 3, true);
+                let mode = if t.pick(2) == 0 { Mode::Minimal } else { Mode::Full };
+                for st in &prog {
+                    chunks.push(Printer::new(mode, Tape::empty()).statement(st));
+                }
+            }
+            3 => chunks.push(NOISE[t.pick(NOISE.len())].to_string()),
+            _ if !fns.is_empty() => {
+                let f = fns[t.pick(fns.len())].clone();
+                chunks.push(SHORT_CALLS[t.pick(SHORT_CALLS.len())].replace('F', &f));
+            }
+            _ => chunks.push("1".into()),
+        }
+    }
+    Case::Session { chunks, inputs }
+}
 
 fn generated_program(tape: &[u16]) -> Case {
     let mut t = Tape::new(tape);
@@ -591,6 +701,8 @@ pub fn run(ctx: &mut Ctx) {
     ctx.run_random(&Pipeline, tuples, ctx.tier.pick(40_000, 1_000_000));
     // (2) generated programs
     ctx.run_random(&Pipeline, prop::collection::vec(any::<u16>(), 0..400).prop_map(|t| generated_program(&t)), ctx.tier.pick(30_000, 600_000));
+    // (2b) sessions: texts evaluated one after the other, functions called from another text
+    ctx.run_random(&Pipeline, prop::collection::vec(any::<u16>(), 0..200).prop_map(|t| session_case(&t)), ctx.tier.pick(30_000, 600_000));
     // (3) corpus replay and mutation
     let corpus = corpus_texts();
     ctx.note(format!("corpus: {} texts from examples / benches / README", corpus.len()));
